@@ -34,6 +34,7 @@ pub fn run_c12(cx: &mut Cx) {
         credential(cx, c, suite, issuer, holder);
     }
     cx.run();
+    if cx.ch.chance("concurrent_burst", 1, 6) { crate::scen_burst::update_burst(cx); }
 }
 
 fn credential(cx: &mut Cx, c: u64, suite: Suite, issuer: NodeId, holder: NodeId) {
